@@ -134,16 +134,18 @@ func replayE2E(a *hx.Args) error {
 			panic(err)
 		}
 		p := planOf(&rec, i+1)
-		key := "C15/e2e/" + rec.Flow + "/" + scKey(rec.Sc) + "/" + forgeKey(p.Forges) + "/"
+		key := "C15/e2e/" + rec.Flow + "/"
+		where := " [" + scKey(rec.Sc) + "; forged: " + forgeKey(p.Forges) + "]"
 		var r *runner
 		res := hx.Safely(i, func() hx.Result { r = runPlan(p, nil, 0); return hx.Result{OK: true} })
 		if !res.OK {
 			res.Key = key + "panic"
+			res.What += where
 			return res
 		}
 		runners[i] = r
 		if k, what := compareE2E(&rec, r); k != "" {
-			return hx.Result{OK: false, Key: key + k, What: what, Extra: r.lines}
+			return hx.Result{OK: false, Key: key + k, What: what + where, Extra: r.lines}
 		}
 		nt := rec.Flow + "|" + forgeKey(p.Forges)
 		for _, s := range r.steps {
